@@ -115,9 +115,13 @@ func (w *World) wsExchange(r *Req, expected map[string][]string) (int, []byte, m
 					mult++
 				}
 			}
+			// the handler subscribes its connectors right after the upgrade; nothing signals it to the client
+			time.Sleep(50 * time.Millisecond)
 			for i := 0; i < r.Extra; i++ {
 				line := fmt.Sprintf("%s follow line %d", target, i)
-				c.WriteOut([]byte(line + "\n"))
+				if !writeOutTimeout(c, []byte(line+"\n"), time.Second) {
+					break // the supervisor does not read this command's output (not a subject of C19)
+				}
 				for k := 0; k < mult; k++ {
 					expected[target] = append(expected[target], line)
 				}
@@ -140,6 +144,17 @@ func (w *World) wsExchange(r *Req, expected map[string][]string) (int, []byte, m
 	_ = conn.WriteMessage(websocket.CloseMessage, websocket.FormatCloseMessage(websocket.CloseNormalClosure, ""))
 	time.Sleep(5 * time.Millisecond)
 	return 101, nil, got
+}
+
+func writeOutTimeout(c *fakecmd.Cmd, b []byte, d time.Duration) bool {
+	done := make(chan struct{})
+	go func() { c.WriteOut(b); close(done) }()
+	select {
+	case <-done:
+		return true
+	case <-time.After(d):
+		return false
+	}
 }
 
 // ---- directed scenarios ----
@@ -246,8 +261,19 @@ func scenarioStalled(base string) Scenario {
 // concurrent ProcessLogBuffer.Write then sends on the closed channel and panics in the goroutine that copies
 // the process output (not under gin.Recovery: it would terminate the supervisor).
 func scenarioClose(base string) Scenario {
+	// phase A: paced writers (handleLog mostly idle in its select: the `done` branch closes logChan while the
+	// observer is still registered); phase B: writers at full speed (logChan full when the follower leaves)
+	a := scenarioClosePhase(base, 9002, 30*time.Microsecond)
+	b := scenarioClosePhase(base, 9004, 0)
+	s := Scenario{Key: "ws-close-send-on-closed-channel", Reproduced: a.Reproduced || b.Reproduced,
+		Panics: a.Panics + b.Panics, Deadlocks: a.Deadlocks + b.Deadlocks, Iterations: a.Iterations + b.Iterations}
+	s.Detail = "paced writers: " + a.Detail + " | full-speed writers: " + b.Detail
+	return s
+}
+
+func scenarioClosePhase(base string, wid int, pace time.Duration) Scenario {
 	s := Scenario{Key: "ws-close-send-on-closed-channel"}
-	w, err := newWorld(base, 9002)
+	w, err := newWorld(base, wid)
 	if err != nil {
 		s.Detail = "world: " + err.Error()
 		return s
@@ -278,6 +304,9 @@ func scenarioClose(base string) Scenario {
 					buf.Write("close-path line")
 					writes.Add(1)
 				}()
+				if pace > 0 {
+					time.Sleep(pace)
+				}
 			}
 		}()
 	}
